@@ -50,8 +50,8 @@ def session(args, variant="rel", sched=False, out=None, timeout=40, env=None):
         p = subprocess.run([e] + argv_of(a), stdout=subprocess.PIPE, stderr=subprocess.PIPE, env=en,
                            timeout=timeout)
     except subprocess.TimeoutExpired as t:
-        return {"timeout": True, "rc": None, "stderr": (t.stderr or b"")[-3000:].decode("latin1")}
-    res = {"timeout": False, "rc": p.returncode, "stderr": p.stderr[-6000:].decode("latin1")}
+        return {"timeout": True, "exit": None, "stderr": (t.stderr or b"")[-3000:].decode("latin1")}
+    res = {"timeout": False, "exit": p.returncode, "stderr": p.stderr[-60000:].decode("latin1")}
     line = p.stdout.decode("latin1").strip().split("\n")[-1] if p.stdout.strip() else ""
     try:
         res.update(json.loads(line))
@@ -143,6 +143,52 @@ def sanitizer_site(stderr):
         m = re.search(r"WARNING: ThreadSanitizer: ([\w -]+)", stderr)
         return ("tsan:" + (m.group(1).strip().replace(" ", "-") if m else "?"), "?")
     return None
+
+
+def sanitizer_sites(stderr):
+    """All distinct (kind, innermost library function) pairs reported by ASan / UBSan / TSan in stderr."""
+    import re
+    sites = []
+    lines = stderr.split("\n")
+    i = 0
+    skip = ("memcpy", "memset", "memmove", "free", "malloc", "calloc", "realloc", "posix_memalign", "operator", "__asan", "__interceptor")
+    while i < len(lines):
+        l = lines[i]
+        kind = None
+        m = re.search(r"runtime error: (.*)", l)
+        if m:
+            msg = m.group(1)
+            kind = "ub:other"
+            for k, name in (("signed integer overflow", "signed-overflow"), ("shift exponent", "shift-exponent"), ("division by zero", "div-by-zero"),
+                            ("out of bounds", "bounds"), ("outside the range of representable", "float-cast"), ("unreachable", "unreachable"),
+                            ("reached the end", "missing-return")):
+                if k in msg:
+                    kind = "ub:" + name
+        m2 = re.search(r"ERROR: AddressSanitizer: ([\w-]+)", l)
+        if m2:
+            kind = "asan:" + m2.group(1)
+        m3 = re.search(r"WARNING: ThreadSanitizer: ([\w -]+?) \(", l)
+        if m3:
+            kind = "tsan:" + m3.group(1).strip().replace(" ", "-")
+        if kind:
+            fn = "?"
+            j = i + 1
+            while j < len(lines) and j < i + 40:
+                fm = re.search(r"#\d+ 0x[0-9a-f]+ in (\S+)", lines[j])
+                if fm and not fm.group(1).startswith(skip):
+                    fn = fm.group(1)
+                    break
+                if lines[j].startswith("SUMMARY") or "runtime error" in lines[j]:
+                    break
+                j += 1
+            if fn == "?":
+                fm = re.search(r"([\w.]+):(\d+):\d+: runtime error", l)
+                if fm:
+                    fn = fm.group(1)
+            if (kind, fn) not in sites:
+                sites.append((kind, fn))
+        i += 1
+    return sites
 
 
 def check_tu_structure(pkts, hdr_bytes, pk_meta, info=None):
